@@ -29,6 +29,8 @@ func init() {
 				Run: ruleShrinkCapacity},
 			{ID: "C19.runs-adjacent", Floor: 3, Clause: "Runs: each run appended in the loop ends exactly where the next one starts on every path into the loop (edge-by-edge induction over the loop-header phis), the last run is s[lo:] and is appended whenever s is non-empty",
 				Run: ruleRunsAdjacent},
+			{ID: "C19.empty-in-empty-out", Floor: 10, Clause: "no exported xslices function from slice(s) to a slice returns a result that is non-empty on every path (an unconditional append of an element, a literal or a make with a positive constant length as the only thing returned): such a result is wrong for the empty input (Chunk, Runs, Map, Filter, Unique, … all map [] to [])",
+				Run: ruleEmptyInEmptyOut},
 			{ID: "C19.sample-bounds", Floor: 2, Clause: "rSample / rSampleSlice store into the reservoir only where next < n (resp. len(a)), slot and position coming from one sampler.Next call",
 				Run: ruleSampleBounds},
 		},
